@@ -17,6 +17,8 @@ full wrap of the 2^31-1 ID space while that request waits (finding F13, see DESI
 `C13_quiescent_nowrap` discharges it for every history with fewer allocations than there are IDs.
 -/
 import Ldap3V.Lemmas.ConnNoWrap
+import Ldap3V.Lemmas.ConnGaps
+import Ldap3V.Props.C04
 namespace Ldap3V.Conn
 
 /-- the stream of a started search is over from its caller's point of view: it has been handed the
@@ -169,6 +171,41 @@ theorem C13_abandon (s : St) (i : Nat) (rest : List Nat) (o : Op) (t : Nat) (hr 
     simp only [dropSenderOpt] at hoj
     exact dropSender_mail _ _ _ hoj
 
+/-- Abandon of a SEARCH releases the stream as well: when the driver handles `abandon t` and `t` is the
+ID of a search registered with channel `c`, the sender clone the driver held for `c` is dropped and no
+other sender exists (`chanOpen s' c = false`: no entry of the search map points at `c` any more, and the
+original sender is not travelling in the op queue) — so, by `C04_closed_channel_ends`, the stream's
+`next()` returns the items already queued and then `EndOfStream`, never "pending".
+`Acct`/`RouteInv` hold in every reachable state (`C13_abandon_releases_stream_nowrap`). -/
+theorem C13_abandon_releases_stream (s : St) (ha : Acct s) (hri : RouteInv s) (i : Nat) (rest : List Nat) (o : Op) (t c : Nat)
+    (hr : s.drv = .running) (hq : s.opQ = i :: rest) (ho : s.ops[i]? = some o) (hk : o.kind = .abandon (t : Int))
+    (hin : s.inUse.contains o.id = true) (hmem : (t, c) ∈ s.searchmap) :
+    ∃ s', step s (.drvOp true) = some (s', .none) ∧ chanOpen s' c = false ∧ s'.chans = s.chans ∧
+      ∀ (ch : Chan) (dl : Option Nat), s.chans[c]? = some ch →
+        (s.ops[ch.opIdx]?.bind (·.res)) = some .ack →      -- the stream exists: `start()` returned Ok
+        ch.rxAlive = true →
+        (∀ it, ch.items[ch.taken]? = some it →
+          step s' (.recv c dl) = some ({ s' with chans := s'.chans.set c { ch with taken := ch.taken + 1 } }, .item (some it))) ∧
+        (ch.items[ch.taken]? = none → step s' (.recv c dl) = some (s', .closed)) := by
+  obtain ⟨s', hs, hclosed, hc, hres, _⟩ := drvOp_abandon_closes s ha hri i rest o t c hr hq ho hk hin hmem
+  refine ⟨s', hs, hclosed, hc, fun ch dl hch hack hrx => ?_⟩
+  exact C04_closed_channel_ends s' c ch dl (by rw [hc]; exact hch) (resKeep_bind hres _ _ hack) hrx hclosed
+
+/-- the same at the end of ANY history with at most `N` (= 2^31-1) allocations: no hypothesis on the state -/
+theorem C13_abandon_releases_stream_nowrap (N : Nat) (evs : List Ev) (hcount : allocCount evs ≤ N)
+    (i : Nat) (rest : List Nat) (o : Op) (t c : Nat)
+    (hr : (run (init N) evs).drv = .running) (hq : (run (init N) evs).opQ = i :: rest)
+    (ho : (run (init N) evs).ops[i]? = some o) (hk : o.kind = .abandon (t : Int))
+    (hin : (run (init N) evs).inUse.contains o.id = true) (hmem : (t, c) ∈ (run (init N) evs).searchmap) :
+    ∃ s', step (run (init N) evs) (.drvOp true) = some (s', .none) ∧ chanOpen s' c = false ∧
+      s'.chans = (run (init N) evs).chans ∧
+      ∀ (ch : Chan) (dl : Option Nat), (run (init N) evs).chans[c]? = some ch →
+        ((run (init N) evs).ops[ch.opIdx]?.bind (·.res)) = some .ack → ch.rxAlive = true →
+        (∀ it, ch.items[ch.taken]? = some it →
+          step s' (.recv c dl) = some ({ s' with chans := s'.chans.set c { ch with taken := ch.taken + 1 } }, .item (some it))) ∧
+        (ch.items[ch.taken]? = none → step s' (.recv c dl) = some (s', .closed)) :=
+  C13_abandon_releases_stream _ (Acct.run N evs (freshRun_init N evs hcount)) (RouteInv.run N evs) i rest o t c hr hq ho hk hin hmem
+
 /-- a request whose ID was released while it waited in the queue is discarded: nothing is sent,
 nothing is registered (fix F15) -/
 theorem C13_scrubbed_request_not_registered (s : St) (i : Nat) (rest : List Nat) (o : Op) (b : Bool)
@@ -267,5 +304,24 @@ example : ∀ (i : Nat) (o : Op), (run (init 100) sampleHistory).ops[i]? = some 
 
 example : (run (init 100) sampleHistory).ops.map (·.res) =
     [some (.frame ⟨1, 11, 7, true⟩), some .ack, some .timeout, some .ack] := by decide
+
+/-- `C13_abandon_releases_stream_nowrap`: a started search with one entry queued, then an Abandon naming it is
+queued; the hypotheses hold, and after the driver's step the stream reads its entry and then `closed` -/
+def abandonSearchHistory : List Ev :=
+  [.alloc .search, .enqueue 0 none, .drvOp true, .poll 0, .srvSend ⟨1, 4, 8, false⟩, .drvResp,
+   .alloc (.abandon 1), .enqueue 1 none]
+
+example :
+    let s := run (init 100) abandonSearchHistory
+    allocCount abandonSearchHistory ≤ 100 ∧ s.drv = .running ∧ s.opQ = [1] ∧ (s.ops[1]?.map (·.kind)) = some (.abandon ((1 : Nat) : Int)) ∧
+    (s.ops[1]?.map fun o => s.inUse.contains o.id) = some true ∧ (1, 0) ∈ s.searchmap ∧
+    (s.chans[0]?.map fun ch => (ch.rxAlive, ch.items.length, ch.taken, s.ops[ch.opIdx]?.bind (·.res))) = some (true, 1, 0, some .ack) ∧
+    chanOpen s 0 = true := by decide
+
+example :
+    let s1 := run (init 100) (abandonSearchHistory ++ [.drvOp true])
+    chanOpen s1 0 = false ∧ s1.inUse = [] ∧ s1.searchmap = [] ∧
+    (step s1 (.recv 0 none)).map (·.2) = some (.item (some (.entry ⟨1, 4, 8, false⟩))) ∧
+    (step (run s1 [.recv 0 none]) (.recv 0 none)).map (·.2) = some .closed := by decide
 
 end Ldap3V.Conn
